@@ -759,6 +759,25 @@ namespace occa {
         pushOutput(&token);
         return;
       }
+      // [defined X] without parentheses:
+      //   the operand is a macro name, it must not be expanded
+      if (dynamic_cast<definedMacro*>(macro)) {
+        token_t *operand = getSourceToken();
+        if (token_t::safeType(operand) & tokenType::identifier) {
+          const bool isDefined = !!getMacro(operand->to<identifierToken>().value);
+          pushOutput(new primitiveToken(token.origin,
+                                        isDefined,
+                                        isDefined ? "true" : "false"));
+          clearExpandedMacros(operand);
+          delete operand;
+          delete &token;
+          return;
+        }
+        if (operand) {
+          pushInput(operand);
+        }
+      }
+
       // Check for the type of macro
       if (!macro->isFunctionLike) {
         expandMacro(token, *macro);
